@@ -264,7 +264,7 @@ LABELINGS_QUICK = (
        dict(labels=[8, 0, 1], order='fwd'),     # every label in {0,1} names another alternative's position
        dict(labels=[7, 15, 23], order='rev')]   # colliding hashes: positions depend on the insertion order
 )
-POOL = (0, 1, 2, 3, 8, 10)
+POOL = (0, 1, 2, 3, 8)
 
 
 def labelings(tier):
@@ -468,27 +468,31 @@ def fcase(cfg, pset, ri, budget, eps, lab):
     return dict(part='f', cfg=cfg, pset=pset, row=ri, budget=budget, eps=list(eps), lab=lab, seed=_SEED)
 
 
-def _part_f(task, rec, only=None):
-    """only: restrict to (budget, eps, labeling) for replay."""
+def _part_f(task, rec):
     alph = alphabet(task.get('seed', _SEED))
     cfg, pset, ri = task['cfg'], task['pset'], task['row']
     db, one = make_rows(alph['rows'])
     ref = Ref(cfg, alph['psets'][pset], alph['rows'][ri])
     labs = task['labs']
     budgets = task['budgets']
-    draws = list(itertools.product((-1.0, 0.0, 1.0), repeat=3))
+    draws = [tuple(float(v) for v in e) for e in task['draws']]
     bf_labs = set(task.get('bf_labs', [0]))
-    api_labs = set(task.get('api_labs', []))
     name = cfg_name(cfg)
     refsol = {}
     for budget in budgets:
         for eps in draws:
             try:
                 refsol[(budget, eps)] = ref.solve(budget, eps)
-            except (ArithmeticError, ValueError, ZeroDivisionError) as e:
+            except (ArithmeticError, ValueError, ZeroDivisionError):
                 refsol[(budget, eps)] = None
                 rec.count('skipped_reference_has_no_solution')
     first_answer = {}
+    fails = {}   # (budget, eps, clause) -> list of (cls, what, case, expected, observed)
+    ran = {}     # (budget, eps) -> number of labelings executed
+
+    def fail(budget, eps, clause, cls, what, case, expected, observed):
+        fails.setdefault((budget, eps, clause), []).append((cls, what, case, expected, observed))
+
     for li, lab in enumerate(labs):
         model = build_model(cfg, lab, alph['psets']['D'])
         set_params(model, alph, pset)
@@ -499,29 +503,29 @@ def _part_f(task, rec, only=None):
             continue
         cls = lab_class(lab['labels'], itk, cfg['og'])
         rec.count('labeling_class:' + cls)
-        answers = {}
         for budget in budgets:
             for eps in draws:
                 sol = refsol[(budget, eps)]
                 if sol is None:
                     continue
                 xref, lamref = sol
+                ran[(budget, eps)] = ran.get((budget, eps), 0) + 1
                 case = fcase(cfg, pset, ri, budget, eps, lab)
+                where = (f'{name} params {pset} row {ri} budget {budget} eps(A,B,C)={list(eps)} labels(A,B,C)={lab["labels"]} '
+                         f'[{lab["order"]}]')
                 out = run_one_forecast(model, cfg, lab, one[ri], budget, eps)
                 ck = ('f', name, pset, ri, budget, eps, tuple(lab['labels']), lab['order'])
                 if isinstance(out, tuple):
                     rec.case(None, (ck, out), outcome=f"{cfg['variant']}|raised:{out[1]}")
                     rec.count('forecast_raised')
-                    rec.violation(vkey('forecast-raises:' + out[1], cfg, cls),
-                                  f'{name} params {pset} row {ri} budget {budget} eps(A,B,C)={list(eps)} labels(A,B,C)={lab["labels"]} '
-                                  f'[{lab["order"]}]: forecast_bisection_one_draw raised {out[1]}: {out[2]}',
-                                  case, expected=dict(x=xref), observed=f'{out[1]}: {out[2]}')
+                    fail(budget, eps, 'forecast-raises:' + out[1], cls,
+                         f'{where}: forecast_bisection_one_draw raised {out[1]}: {out[2]}', case, dict(x=xref), f'{out[1]}: {out[2]}')
                     if out[1] == 'RuntimeError':
                         rec.retire = True
                     continue
                 xs = out
-                answers[(budget, eps)] = xs
-                pattern = ''.join(GOODS[k] for k in range(3) if xs[k] > ZERO * max(1.0, budget))
+                scale = max(1.0, budget)
+                pattern = ''.join(GOODS[k] for k in range(3) if xs[k] > ZERO * scale)
                 ncorner = sum(1 for k in range(3) if xref[k] == 0.0)
                 rec.count('corner_solutions' if ncorner else 'interior_solutions')
                 if ncorner == 2:
@@ -530,16 +534,14 @@ def _part_f(task, rec, only=None):
                 if li == 0 and budget == budgets[0] and eps == draws[0]:
                     rec.sample(dict(case=case, x=xs, reference=xref))
                 for clause, detail in check_forecast(ref, budget, eps, xs, xref, lamref):
-                    rec.violation(vkey(clause, cfg, cls),
-                                  f'{name} params {pset} row {ri} budget {budget} eps(A,B,C)={list(eps)} labels(A,B,C)={lab["labels"]} '
-                                  f'[{lab["order"]}]: {clause}: {detail}', case, expected=dict(x=xref, dual=lamref), observed=dict(x=xs))
+                    fail(budget, eps, clause, cls, f'{where}: {clause}: {detail}', case, dict(x=xref, dual=lamref), dict(x=xs))
                 # labeling differential
                 key = (budget, eps)
                 if key not in first_answer:
                     first_answer[key] = (xs, lab)
                 else:
                     x0, lab0 = first_answer[key]
-                    if any(abs(xs[k] - x0[k]) > DIFF_ABS * max(1.0, budget) for k in range(3)):
+                    if any(abs(xs[k] - x0[k]) > DIFF_ABS * scale for k in range(3)):
                         rec.violation(vkey('consumption-depends-on-labeling', cfg, cls),
                                       f'{name} params {pset} row {ri} budget {budget} eps={list(eps)}: labels {lab["labels"]} give x(A,B,C)={xs} '
                                       f'but labels {lab0["labels"]} give {x0}', dict(case, lab0=lab0), expected=x0, observed=xs)
@@ -553,7 +555,7 @@ def _part_f(task, rec, only=None):
                         if bf[1] == 'RuntimeError':
                             rec.retire = True
                     else:
-                        feasible = (abs(sum(bf) - budget) <= 1e-7 * max(1.0, budget) and all(v >= -1e-9 for v in bf)
+                        feasible = (abs(sum(bf) - budget) <= 1e-7 * scale and all(v >= -1e-9 for v in bf)
                                     and (ref.og is None or bf[ref.og] > 0))
                         if not feasible:
                             rec.count('bruteforce_infeasible_skipped')
@@ -566,50 +568,74 @@ def _part_f(task, rec, only=None):
                             else:
                                 rec.count('bruteforce_compared')
                                 if ol < ob - OBJ_TOL * max(1.0, abs(ob)):
-                                    rec.violation(vkey('worse-than-brute-force', cfg, cls),
-                                                  f'{name} params {pset} row {ri} budget {budget} eps={list(eps)} labels {lab["labels"]}: '
-                                                  f'objective {ol!r} at x={xs} < brute force {ob!r} at {bf}', case, expected=ob, observed=ol)
-                                if abs(ob - ol) > 1e-4 * max(1.0, abs(ol)):
+                                    fail(budget, eps, 'worse-than-brute-force', cls,
+                                         f'{where}: objective {ol!r} at x={xs} < brute force objective {ob!r} at {bf}', case, ob, ol)
+                                if ob < ol - 1e-4 * max(1.0, abs(ol)):
                                     rec.count('bruteforce_worse_than_forecast_by_1e-4')
-        # the data-frame API on both rows at once (all 27 draws): must equal the one-draw answers
-        if li in api_labs and len(answers) == len(budgets) * len(draws):
-            _api_check(rec, model, cfg, pset, ri, lab, cls, db, alph, budgets, draws, answers, name)
+    # a clause failing under every labeling of the task is not about labels: one key ('labeling:any');
+    # otherwise the key carries the class of the failing labeling
+    force = task.get('force_cls')
+    for (budget, eps, clause), lst in fails.items():
+        n = ran.get((budget, eps), 0)
+        nb = len(bf_labs & set(range(len(labs)))) if clause == 'worse-than-brute-force' else n
+        everywhere = (len(lst) >= nb and nb > 1) or clause == 'worse-than-brute-force'
+        for cls, what, case, expected, observed in lst:
+            c = force if force is not None else ('any' if everywhere else cls)
+            rec.violation(vkey(clause, cfg, c), what, dict(case, cls=c), expected=expected, observed=observed)
 
 
-def _api_check(rec, model, cfg, pset, ri, lab, cls, db, alph, budgets, draws, answers, name):
+# --------------------------------------------------------------------------- part a: the data-frame API
+def _part_a(task, rec):
+    """Mdcev.forecast on the whole table (both rows, all 27 draws per row) against the reference optimum."""
     import numpy as np
 
+    alph = alphabet(task.get('seed', _SEED))
+    cfg, pset, lab, budget = task['cfg'], task['pset'], task['lab'], task['budget']
+    db, _ = make_rows(alph['rows'])
+    name = cfg_name(cfg)
     labels = lab['labels']
+    draws = list(itertools.product((-1.0, 0.0, 1.0), repeat=3))
+    model = build_model(cfg, lab, alph['psets']['D'])
+    set_params(model, alph, pset)
+    cls = lab_class(labels, list(model.index_to_key), cfg['og'])
     arr = np.zeros((len(draws), 3))
     for d, eps in enumerate(draws):
         for k in range(3):
             arr[d, model.key_to_index[labels[k]]] = eps[k]
-    for budget in budgets:
-        case = dict(fcase(cfg, pset, ri, budget, draws[0], lab), api=True)
-        try:
-            frames = model.forecast(database=db, total_budget=budget, epsilons=[arr.copy() for _ in alph['rows']])
-        except Exception as e:  # noqa: BLE001
-            rec.case(None, ('api', name, pset, budget, tuple(labels), 'raised', type(e).__name__))
-            # the other row may legitimately hit a failure already reported by the one-draw sweep of that row
-            rec.count('forecast_api_raised')
-            rec.violation(vkey('forecast-api-raises:' + type(e).__name__, cfg, cls),
-                          f'{name} params {pset} budget {budget} labels {labels}: Mdcev.forecast raised {type(e).__name__}: {str(e)[:200]}',
-                          case, observed=f'{type(e).__name__}: {str(e)[:200]}')
-            continue
-        f = frames[ri]
-        ok = list(f.columns) == sorted(labels) and len(f) == len(draws) and len(frames) == len(alph['rows'])
-        if not ok:
-            rec.violation(vkey('forecast-api-shape', cfg, cls), f'{name}: columns {list(f.columns)} rows {len(f)} frames {len(frames)}',
-                          case, expected=dict(columns=sorted(labels), rows=len(draws)), observed=dict(columns=[int(c) for c in f.columns], rows=len(f)))
-            continue
+    case = dict(part='a', cfg=cfg, pset=pset, lab=lab, budget=budget, seed=_SEED)
+    ck = ('a', name, pset, budget, tuple(labels), lab['order'])
+    try:
+        frames = model.forecast(database=db, total_budget=budget, epsilons=[arr.copy() for _ in alph['rows']])
+    except Exception as e:  # noqa: BLE001
+        rec.case(None, (ck, 'raised', type(e).__name__), outcome=f"{cfg['variant']}|api-raised:{type(e).__name__}")
+        rec.count('forecast_api_raised')
+        rec.violation(vkey('forecast-api-raises:' + type(e).__name__, cfg, cls),
+                      f'{name} params {pset} budget {budget} labels {labels} [{lab["order"]}]: Mdcev.forecast (2 rows x 27 draws) raised '
+                      f'{type(e).__name__}: {str(e)[:200]}', case, observed=f'{type(e).__name__}: {str(e)[:200]}')
+        if isinstance(e, RuntimeError):
+            rec.retire = True
+        return
+    ok = len(frames) == len(alph['rows']) and all(list(f.columns) == sorted(labels) and len(f) == len(draws) for f in frames)
+    if not ok:
+        rec.case(None, (ck, 'shape'), outcome='api-shape')
+        rec.violation(vkey('forecast-api-shape', cfg, cls), f'{name} labels {labels}: {len(frames)} frames, columns '
+                      f'{[list(map(int, f.columns)) for f in frames]}, lengths {[len(f) for f in frames]}', case,
+                      expected=dict(frames=len(alph['rows']), columns=sorted(labels), rows=len(draws)))
+        return
+    for ri, f in enumerate(frames):
+        ref = Ref(cfg, alph['psets'][pset], alph['rows'][ri])
         for d, eps in enumerate(draws):
             xs = [float(f[labels[k]].iloc[d]) for k in range(3)]
-            x1 = answers[(budget, eps)]
-            rec.case(('api', name, pset, ri, budget, eps, tuple(labels)), ('api', [round(v, 7) for v in xs]), outcome='api')
-            if any(abs(xs[k] - x1[k]) > 1e-6 * max(1.0, budget) for k in range(3)):
-                rec.violation(vkey('forecast-api-differs-from-one-draw', cfg, cls),
-                              f'{name} params {pset} row {ri} budget {budget} draw #{d} {list(eps)} labels {labels}: forecast() gives {xs}, '
-                              f'forecast_bisection_one_draw {x1}', dict(case, eps=list(eps)), expected=x1, observed=xs)
+            try:
+                xref, lamref = ref.solve(budget, eps)
+            except (ArithmeticError, ValueError, ZeroDivisionError):
+                rec.count('skipped_reference_has_no_solution')
+                continue
+            rec.case(ck + (ri, eps), (ck, ri, eps, [round(v, 7) for v in xs]), outcome=f"{cfg['variant']}|api")
+            if any(abs(xs[k] - xref[k]) > 1e-6 * max(1.0, budget) for k in range(3)):
+                rec.violation(vkey('forecast-api-not-the-optimum', cfg, cls),
+                              f'{name} params {pset} row {ri} budget {budget} draw #{d} {list(eps)} labels {labels}: forecast() gives x(A,B,C)={xs}, '
+                              f'reference {xref}', dict(case, row=ri, draw=d), expected=xref, observed=xs)
 
 
 # --------------------------------------------------------------------------- part p: pieces
@@ -755,17 +781,29 @@ H_EPS = (1.0, 0.0, -1.0)
 H_BUDGET = 10.0
 
 
-def history_pattern(hist):
-    """Normalised witness: does the failing step use a row that was used before the last parameter change?"""
-    last = hist[-1]
-    row = last[1]
-    sets = [i for i, op in enumerate(hist[:-1]) if op[0] == 'S']
-    if not sets:
-        return 'no-parameter-change-before'
-    before = [op for op in hist[:sets[-1]] if op[0] != 'S' and op[1] == row]
-    if before:
-        return 'history=[use(row),set-parameters,use(row)]'
-    return 'history=[set-parameters,use(row)]'
+def history_violation(cfg, lab, hist, bad, alph):
+    """Key and text of a failing history step.  The step is re-executed on a *fresh* model that is only given the
+    current parameters: if it passes there, the result depends on the history (stale state); otherwise the failure
+    is not about the history and keeps its own clause."""
+    i, clause, detail, expected, observed = bad
+    h = [tuple(o) for o in hist[:i + 1]]
+    cur = 'D'
+    for op in h:
+        if op[0] == 'S':
+            cur = op[1]
+    fresh = ([('S', cur)] if cur != 'D' else []) + [h[-1]]
+    if len(fresh) < len(h) and run_history(cfg, lab, fresh, alph) is None:
+        row = h[-1][1]
+        last_set = max(j for j, op in enumerate(h) if op[0] == 'S') if any(op[0] == 'S' for op in h) else -1
+        used_before = any(op[0] != 'S' and op[1] == row for op in h[:max(last_set, 0)])
+        pat = 'history=[use(row),set-parameters,use(row)]' if used_before else 'history=other'
+        key = vkey('result-differs-from-fresh-model-with-same-parameters', cfg) + '|' + pat
+        what = (f'{cfg_name(cfg)} labels {lab["labels"]}: after the history {h} step {i} gives {clause} ({detail}); '
+                f'a fresh model given parameters {cur} passes the same step')
+    else:
+        key = vkey(clause, cfg) + '|also-on-a-fresh-model'
+        what = f'{cfg_name(cfg)} labels {lab["labels"]} history {h}: step {i} {clause}: {detail} (a fresh model fails the same way)'
+    return key, what
 
 
 def run_history(cfg, lab, hist, alph, rec=None, one=None, name=None):
@@ -865,13 +903,10 @@ def _part_h(task, rec):
         bad = run_history(cfg, lab, hist, alph, rec, one, name)
         rec.count('histories')
         if bad:
-            i, clause, detail, expected, observed = bad
-            h = hist[:i + 1]
-            pat = history_pattern(h)
-            rec.violation(vkey(clause if pat.startswith('no-') else 'stale-values-after-parameter-change', cfg) + '|' + pat,
-                          f'{name} labels {lab["labels"]} history {h}: step {i} {clause}: {detail}',
-                          dict(part='h', cfg=cfg, lab=lab, history=[list(o) for o in h], seed=_SEED),
-                          expected=expected, observed=observed)
+            i = bad[0]
+            key, what = history_violation(cfg, lab, hist, bad, alph)
+            rec.violation(key, what, dict(part='h', cfg=cfg, lab=lab, history=[list(o) for o in hist[:i + 1]], seed=_SEED),
+                          expected=bad[3], observed=bad[4])
 
 
 # --------------------------------------------------------------------------- tasks
@@ -879,31 +914,47 @@ def tasks(tier, seed):
     t = []
     cfgs = configs(tier)
     labs = labelings(tier)
+    nq = len(LABELINGS_QUICK)
+    quick_labs, extra_labs = labs[:nq], labs[nq:]
     if tier == 'quick':
         psets = ['D', 'B']
         budgets = [1.0, 10.0]
         p_labs = [labs[0], labs[4], labs[9]]
         h_depth = 3
+        api = [('D', 1.0, 0), ('B', 10.0, 3)]
     else:
         psets = ['D', 'A', 'B']
         budgets = [0.125, 1.0, 10.0]
-        p_labs = labs[:12]
+        p_labs = quick_labs
         h_depth = 4
-    # pieces first (simplest), then forecasts, then histories
+        api = [(ps, b, li) for ps in psets for b in budgets for li in (0, 3, 8)]
+    # pieces first (simplest), then forecasts, the data-frame API, then histories
     for cfg in cfgs:
         for pset in psets:
             t.append(dict(part='p', cfg=cfg, pset=pset, rows=[0, 1], labs=p_labs, seed=seed))
-    chunk = 12 if tier == 'quick' else 16
+    firsts = (-1.0, 0.0, 1.0)
+    tails = [list(e) for e in itertools.product(firsts, repeat=2)]
     for cfg in cfgs:
         for pset in psets:
             for ri in (0, 1):
-                for c0 in range(0, len(labs), chunk):
-                    sub = labs[c0:c0 + chunk]
-                    # every chunk starts with the natural labeling so that the differential always has the same anchor
-                    if c0 > 0:
-                        sub = [labs[0]] + sub
-                    t.append(dict(part='f', cfg=cfg, pset=pset, row=ri, labs=sub, budgets=budgets, seed=seed,
-                                  bf_labs=[0] if c0 == 0 else [], api_labs=[0, 3, 8] if c0 == 0 else []))
+                for budget in budgets:
+                    for e0 in firsts:
+                        t.append(dict(part='f', cfg=cfg, pset=pset, row=ri, labs=quick_labs, budgets=[budget],
+                                      draws=[[e0] + tl for tl in tails], seed=seed, bf_labs=[0]))
+    # thorough: the whole pool of labelings on the quick grid; every chunk starts with the natural labeling so
+    # that the labeling differential always has the same anchor
+    chunk = 15
+    for cfg in cfgs:
+        for pset in ('D', 'B'):
+            for ri in (0, 1):
+                for budget in (1.0, 10.0):
+                    for e0 in firsts:
+                        for c0 in range(0, len(extra_labs), chunk):
+                            t.append(dict(part='f', cfg=cfg, pset=pset, row=ri, labs=[labs[0]] + extra_labs[c0:c0 + chunk],
+                                          budgets=[budget], draws=[[e0] + tl for tl in tails], seed=seed, bf_labs=[]))
+    for cfg in cfgs:
+        for ps, b, li in api:
+            t.append(dict(part='a', cfg=cfg, pset=ps, budget=b, lab=labs[li], seed=seed))
     h_lab = [labs[0], labs[9]] if tier == 'thorough' else [labs[9]]
     for cfg in cfgs:
         if cfg['prices'] != HAS_PRICES[cfg['variant']] or not cfg['scale']:
@@ -921,6 +972,8 @@ def run_task(task):
     part = task['part']
     if part == 'f':
         _part_f(task, rec)
+    elif part == 'a':
+        _part_a(task, rec)
     elif part == 'p':
         _part_p(task, rec)
     elif part == 'h':
@@ -938,11 +991,10 @@ def replay(case):
     if part == 'f':
         labs = [case['lab']] if 'lab0' not in case else [case['lab0'], case['lab']]
         task = dict(part='f', cfg=case['cfg'], pset=case['pset'], row=case['row'], labs=labs, budgets=[case['budget']],
-                    seed=seed, bf_labs=list(range(len(labs))), api_labs=list(range(len(labs))) if case.get('api') else [])
+                    draws=[case['eps']], seed=seed, bf_labs=list(range(len(labs))), force_cls=case.get('cls'))
         _part_f(task, rec)
-        eps = [float(v) for v in case['eps']]
-        keep = [v for v in rec.violations if [float(x) for x in v['case'].get('eps', [])] == eps]
-        rec.violations = keep or rec.violations
+    elif part == 'a':
+        _part_a(dict(case), rec)
     elif part == 'p':
         task = dict(part='p', cfg=case['cfg'], pset=case['pset'], rows=[case['row']], labs=[case['lab']], seed=seed)
         if case['kind'] == 'validation':
@@ -954,8 +1006,6 @@ def replay(case):
         hist = [tuple(o) for o in case['history']]
         bad = run_history(case['cfg'], case['lab'], hist, alph)
         if bad:
-            i, clause, detail, expected, observed = bad
-            pat = history_pattern(hist[:i + 1])
-            rec.violation(vkey(clause if pat.startswith('no-') else 'stale-values-after-parameter-change', case['cfg']) + '|' + pat,
-                          f'history {hist[:i + 1]}: step {i} {clause}: {detail}', case, expected=expected, observed=observed)
+            key, what = history_violation(case['cfg'], case['lab'], hist, bad, alph)
+            rec.violation(key, what, case, expected=bad[3], observed=bad[4])
     return rec.violations
